@@ -187,6 +187,9 @@ end
 /-! ### `BoundsAnalyzer` -/
 structure Analyzer (α : Type) where
   variableBounds : List (String × Bounds α)
+  /-- names whose domain type is `Boolean`: a Boolean domain cannot carry a tightened range, so these
+  keep `[0, 1]` (`tighten_variable` returns early). -/
+  booleanVariables : List String
   tolerance : α
   reachedIterationLimit : Bool
   detectedInfeasible : Bool
@@ -207,6 +210,7 @@ def varBounds (vb : List (String × Bounds α)) (name : String) : Bounds α :=
 /-- `from_domain` (collect into an IndexMap) with the given tolerance. -/
 def fromDomain (domain : List (DomVar α)) (tol : α) : Analyzer α :=
   { variableBounds := domain.foldl (fun m d => AList.insert m d.name (Bounds.ofVarType d.ty)) []
+    booleanVariables := domain.foldl (fun s d => match d.ty with | .bool => insertSet s d.name | _ => s) []
     tolerance := tol, reachedIterationLimit := false, detectedInfeasible := false }
 
 mutual
@@ -244,10 +248,17 @@ def boundsOfList (vb : List (String × Bounds α)) : List (Exp α) → List (Bou
   | e :: es => boundsOf vb e :: boundsOfList vb es
 end
 
+/-- `insert_variable` (used by the linearizer when it declares an auxiliary variable). -/
+def insertVariable (an : Analyzer α) (name : String) (ty : VarType α) : Analyzer α :=
+  { an with
+    booleanVariables := match ty with | .bool => insertSet an.booleanVariables name | _ => an.booleanVariables
+    variableBounds := AList.insert an.variableBounds name (Bounds.ofVarType ty) }
+
 def markInfeasible (an : Analyzer α) : Analyzer α := { an with detectedInfeasible := true }
 
 /-- `tighten_variable`. -/
 def tightenVariable (an : Analyzer α) (name : String) (candidate : Bounds α) : Analyzer α × Bool :=
+  if an.booleanVariables.contains name then (an, false) else
   let current := varBounds an.variableBounds name
   match current.intersection candidate an.tolerance with
   | none => (an.markInfeasible, false)
